@@ -111,6 +111,29 @@ theorem setMember_spec {ord : κ → κ → Ordering} [TransCmp ord]
     setMemberM key cmp x arr = some (setMemberSpec k ord x arr) :=
   setMemberM_eq hk hc x arr hs
 
+/-- C10.2e the key function is called only on elements that are compared: when one side is
+    exhausted the other is appended (union, diff) or dropped (inter, diff) untouched, and
+    `setMember` does not look at `x` when the set is empty — for EVERY key function, failing ones
+    included (`acc + a[i:]`, `acc + b[j:]` in the documented definitions). -/
+theorem set_ops_exhausted_side_untouched (key : α → Option κ) (cmp : κ → κ → Option Ordering)
+    (x : α) (a b : List α) :
+    unionM key cmp [] b = some b ∧ unionM key cmp a [] = some a ∧
+    interM key cmp [] b = some [] ∧ interM key cmp a [] = some [] ∧
+    diffM key cmp [] b = some [] ∧ diffM key cmp a [] = some a ∧
+    setMemberM key cmp x [] = some false := by
+  refine ⟨?_, ?_, ?_, ?_, ?_, ?_, ?_⟩
+  · simp [unionM]
+  · cases a <;> simp [unionM]
+  · simp [interM]
+  · cases a <;> simp [interM]
+  · simp [diffM]
+  · cases a <;> simp [diffM]
+  · simp [setMemberM]
+
+example : unionM (fun (_ : Int) => (none : Option Int)) (fun a b => some (compare a b)) [] [5] = some [5] ∧
+    unionM (fun (_ : Int) => (none : Option Int)) (fun a b => some (compare a b)) [1] [5] = none := by
+  refine ⟨?_, ?_⟩ <;> simp [unionM]
+
 example : setMemberM (fun (n : Int) => some n) (fun a b => some (compare a b)) 7 [1, 3, 7, 9] = some true ∧
     setMemberM (fun (n : Int) => some n) (fun a b => some (compare a b)) 4 [1, 3, 7, 9] = some false := by
   decide
@@ -174,32 +197,106 @@ example : joinM [0] [none, some [1], none, some [], some [2, 3], none] = [1, 0, 
 /-! ### 5. round 3 — the remaining loops of arrays.rs / math.rs / sort.rs
 
 Array arguments are lists of lazily evaluated elements (`none` = evaluating the element raises);
-callbacks may fail.  `…Loop`/`…M` are the Rust loops, `…Spec` the documented meaning. -/
+callbacks may fail.  `…Loop`/`…M` are the Rust loops, `…Spec` the documented meaning.  Round 4: the
+loops that call a jsonnet function on an element hand it the thunk (`Option α → …`), as the
+documented definitions hand it `arr[i]`; the round-3 statements for callbacks that use their
+argument are kept as the `…_strict` corollaries. -/
 
-/-- C10.5a `builtin_foldl` / `builtin_foldr` (accumulator loop, `iter().rev()`): every element is
-    evaluated, then the result is the left / right fold of the callback; any failure is an error. -/
-theorem fold_spec (f : β → α → Option β) (g : α → β → Option β) (init : β) (xs : List (Option α)) :
-    foldlLoop f init xs = (evalAll xs).bind (foldlSpec f init) ∧
-    foldrLoop g init xs = (evalAll xs).bind (foldrSpec g init) :=
+/-- C10.5a `builtin_foldl` / `builtin_foldr` (accumulator loop over `iter_lazy()`, `.rev()`), at full
+    strength: the callback receives thunks — `init` unevaluated in the first call, an evaluated
+    result afterwards, and the element unevaluated — and the loop is the documented recursion
+    `aux(func, arr, func(running, arr[idx]), idx ± 1) tailstrict`: every call is evaluated before the
+    next one, its arguments are not; a failing call is an error; the result is the last call's
+    result, or `init` itself for the empty collection. -/
+theorem fold_spec (f : Option β → Option α → Option β) (g : Option α → Option β → Option β)
+    (init : Option β) (xs : List (Option α)) :
+    foldlLoop f init xs = foldlSpec f init xs ∧ foldrLoop g init xs = foldrSpec g init xs :=
   ⟨foldlLoop_eq f init xs, foldrLoop_eq g init xs⟩
 
-example : foldlLoop (fun (a : List Nat) (x : Nat) => some (a ++ [x])) [] [some 1, some 2, some 3] = some [1, 2, 3] ∧
-    foldrLoop (fun (x : Nat) (a : List Nat) => some (a ++ [x])) [] [some 1, some 2, some 3] = some [3, 2, 1] ∧
-    foldlLoop (fun (a : List Nat) (x : Nat) => some (a ++ [x])) [] [some 1, none] = none := by decide
+/-- C10.5a′ the round-3 statement is the special case of callbacks that use both arguments
+    (`strict2 f = fun acc x => acc.bind fun a => x.bind (f a)`): every element is evaluated, then the
+    result is the plain left / right fold; any failure is an error. -/
+theorem fold_spec_strict (f : β → α → Option β) (g : α → β → Option β) (init : β) (xs : List (Option α)) :
+    foldlLoop (strict2 f) (some init) xs = (evalAll xs).bind (foldlStrict f init) ∧
+    foldrLoop (strict2r g) (some init) xs = (evalAll xs).bind (foldrStrict g init) :=
+  ⟨foldlLoop_strict f init xs, foldrLoop_strict g init xs⟩
+
+/-- C10.5a″ what the callback does not use is unobservable: a callback that ignores the element
+    gives the same result on every array of the same length (failing elements included), and a
+    callback that ignores the running value gives the same result for every `init` (a failing one
+    included) as soon as the collection is not empty. -/
+theorem fold_unused_unobservable (h : Option β → Option β) (h' : Option α → Option β)
+    (init init' : Option β) (xs ys : List (Option α)) :
+    (xs.length = ys.length →
+      foldlLoop (fun acc _ => h acc) init xs = foldlLoop (fun acc _ => h acc) init ys ∧
+      foldrLoop (fun _ acc => h acc) init xs = foldrLoop (fun _ acc => h acc) init ys) ∧
+    (xs ≠ [] →
+      foldlLoop (fun _ e => h' e) init xs = foldlLoop (fun _ e => h' e) init' xs ∧
+      foldrLoop (fun e _ => h' e) init xs = foldrLoop (fun e _ => h' e) init' xs) := by
+  have hl : ∀ (xs ys : List (Option α)) (acc : Option β), xs.length = ys.length →
+      foldlLoop (fun acc _ => h acc) acc xs = foldlLoop (fun acc _ => h acc) acc ys := by
+    intro xs
+    induction xs with
+    | nil => intro ys acc hlen; cases ys with | nil => rfl | cons _ _ => simp at hlen
+    | cons e r ih =>
+      intro ys acc hlen
+      cases ys with
+      | nil => simp at hlen
+      | cons e' r' =>
+        simp only [foldlLoop]
+        cases h acc with
+        | none => rfl
+        | some a => exact ih r' (some a) (by simpa using hlen)
+  have hi : ∀ (xs : List (Option α)) (a b : Option β), xs ≠ [] →
+      foldlLoop (fun _ e => h' e) a xs = foldlLoop (fun _ e => h' e) b xs := by
+    intro xs a b hne
+    cases xs with
+    | nil => exact absurd rfl hne
+    | cons e r => simp only [foldlLoop]
+  refine ⟨fun hlen => ⟨hl xs ys init hlen, ?_⟩, fun hne => ⟨hi xs init init' hne, ?_⟩⟩
+  · unfold foldrLoop
+    rw [foldrGo_eq_foldlLoop, foldrGo_eq_foldlLoop]
+    exact hl xs.reverse ys.reverse init (by simpa using hlen)
+  · unfold foldrLoop
+    rw [foldrGo_eq_foldlLoop, foldrGo_eq_foldlLoop]
+    exact hi xs.reverse init init' (by simpa using hne)
+
+example : foldlLoop (strict2 fun (a : List Nat) (x : Nat) => some (a ++ [x])) (some []) [some 1, some 2, some 3] = some [1, 2, 3] ∧
+    foldrLoop (strict2r fun (x : Nat) (a : List Nat) => some (a ++ [x])) (some []) [some 1, some 2, some 3] = some [3, 2, 1] ∧
+    foldlLoop (strict2 fun (a : List Nat) (x : Nat) => some (a ++ [x])) (some []) [some 1, none] = none := by decide
+
+/-- the repaired defect: `std.foldl(function(acc, x) acc, [error "a"], 0)` is `0`,
+    `std.foldl(function(acc, x) x, [1, 2], error "i")` is `2`, `std.foldl(f, [], error "i")` fails -/
+example : foldlLoop (fun (acc : Option Nat) (_ : Option Nat) => acc) (some 0) [none] = some 0 ∧
+    foldrLoop (fun (_ : Option Nat) (acc : Option Nat) => acc.map (· + 1)) (some 0) [none, some 7] = some 2 ∧
+    foldlLoop (fun (_ : Option Nat) (e : Option Nat) => e) none [some 1, some 2] = some 2 ∧
+    foldlLoop (fun (acc : Option Nat) (_ : Option Nat) => acc) none [] = none := by decide
 
 /-- the `Either![ArrValue, IStr]` dispatch: a string is folded as the array of its characters, any
     other value is rejected, and on arrays the loop is the documented recursion -/
-theorem fold_dispatch_spec (f : V → V → Option V) (init : V) :
-    (∀ xs, Model.foldl f (Idx.ofV (.arr xs)) init = foldlSpec f init xs) ∧
-    (∀ s, Model.foldl f (Idx.ofV (.str s)) init = foldlSpec f init (chars s)) ∧
-    (∀ xs, Model.foldr f (Idx.ofV (.arr xs)) init = foldrSpec f init xs) ∧
-    (∀ s, Model.foldr f (Idx.ofV (.str s)) init = foldrSpec f init (chars s)) ∧
+theorem fold_dispatch_spec (f : Option V → Option V → Option V) (init : Option V) :
+    (∀ xs, Model.foldl f (.arr xs) init = foldlSpec f init xs) ∧
+    (∀ s, Model.foldl f (Idx.ofV (.str s)) init = foldlSpec f init ((chars s).map some)) ∧
+    (∀ xs, Model.foldr f (.arr xs) init = foldrSpec f init xs) ∧
+    (∀ s, Model.foldr f (Idx.ofV (.str s)) init = foldrSpec f init ((chars s).map some)) ∧
     Model.foldl f (Idx.ofV .null) init = none ∧ Model.foldr f (Idx.ofV (.num 1)) init = none := by
   refine ⟨fun xs => ?_, fun s => ?_, fun xs => ?_, fun s => ?_, rfl, rfl⟩
-  · simp [Model.foldl, Idx.ofV, foldlLoop_eq]
+  · simp [Model.foldl, foldlLoop_eq]
   · simp [Model.foldl, Idx.ofV, charsL, foldlLoop_eq]
-  · simp [Model.foldr, Idx.ofV, foldrLoop_eq]
+  · simp [Model.foldr, foldrLoop_eq]
   · simp [Model.foldr, Idx.ofV, charsL, foldrLoop_eq]
+
+/-- ... and for callbacks that use both arguments on evaluated arrays (the round-3 statement) -/
+theorem fold_dispatch_spec_strict (f : V → V → Option V) (init : V) :
+    (∀ xs, Model.foldl (strict2 f) (Idx.ofV (.arr xs)) (some init) = foldlStrict f init xs) ∧
+    (∀ s, Model.foldl (strict2 f) (Idx.ofV (.str s)) (some init) = foldlStrict f init (chars s)) ∧
+    (∀ xs, Model.foldr (strict2r f) (Idx.ofV (.arr xs)) (some init) = foldrStrict f init xs) ∧
+    (∀ s, Model.foldr (strict2r f) (Idx.ofV (.str s)) (some init) = foldrStrict f init (chars s)) := by
+  refine ⟨fun xs => ?_, fun s => ?_, fun xs => ?_, fun s => ?_⟩
+  · simp [Model.foldl, Idx.ofV, foldlLoop_strict]
+  · simp [Model.foldl, Idx.ofV, charsL, foldlLoop_strict]
+  · simp [Model.foldr, Idx.ofV, foldrLoop_strict]
+  · simp [Model.foldr, Idx.ofV, charsL, foldrLoop_strict]
 
 /-- C10.5b `builtin_any` / `builtin_all` / `builtin_member` equal "find the first element that does
     not have the neutral verdict": none → neutral answer, a deciding one → its answer, anything
@@ -240,21 +337,24 @@ theorem find_count_spec (t : α → Option Bool) (xs : List (Option α)) :
 example : findLoop (fun (y : Nat) => some (y == 7)) 0 [] [some 7, some 1, some 7] = some [0, 2] ∧
     countLoop (fun (y : Nat) => some (y == 7)) 0 [some 7, some 1, some 7] = some 2 := by decide
 
-/-- C10.5e `ArrValue::filter` — eager attempt, `break 'eager` at the first failing element, second
-    pass over the thunks — keeps exactly the elements on which the predicate says `true`, whichever
-    path runs; a failing element survives as long as the predicate does not force it. -/
-theorem filter_spec (p : Option α → Option Bool) (xs : List (Option α)) :
-    filterM p xs = filterSpec p xs :=
-  filterM_eq p xs
+/-- C10.5e `ArrValue::filter` — a value pass for arrays whose elements are values already
+    (`iter_cheap()`), otherwise one pass over the thunks — keeps exactly the elements on which the
+    predicate says `true`, whichever path runs; a failing element survives as long as the predicate
+    does not force it. -/
+theorem filter_spec (p : Option α → Option Bool) (cheap : Bool) (xs : List (Option α)) :
+    filterM p cheap xs = filterSpec p xs :=
+  filterM_eq p cheap xs
 
 /-- C10.5f `builtin_filter_map` = filter, then a lazy map over the kept thunks -/
-theorem filterMap_spec (p : Option α → Option Bool) (g : Option α → Option β) (xs : List (Option α)) :
-    filterMapM p g xs = (filterSpec p xs).map (fun ys => ys.map g) := by
+theorem filterMap_spec (p : Option α → Option Bool) (g : Option α → Option β) (cheap : Bool)
+    (xs : List (Option α)) :
+    filterMapM p g cheap xs = (filterSpec p xs).map (fun ys => ys.map g) := by
   simp [filterMapM, filterM_eq]
 
-example : filterM (fun (_ : Option Nat) => some true) [some 1, none, some 3] = some [some 1, none, some 3] ∧
-    filterM (fun (e : Option Nat) => e.map (· > 1)) [some 1, some 2, some 3] = some [some 2, some 3] ∧
-    filterM (fun (e : Option Nat) => e.map (· > 1)) [some 1, none] = none := by decide
+example : filterM (fun (_ : Option Nat) => some true) false [some 1, none, some 3] = some [some 1, none, some 3] ∧
+    filterM (fun (e : Option Nat) => e.map (· > 1)) true [some 1, some 2, some 3] = some [some 2, some 3] ∧
+    filterM (fun (e : Option Nat) => e.map (· > 1)) false [some 1, some 2, some 3] = some [some 2, some 3] ∧
+    filterM (fun (e : Option Nat) => e.map (· > 1)) false [some 1, none] = none := by decide
 
 /-- C10.5g `mapWithIndex`: element `i` is `f(i, thunk i)` (index passed as `u32`) -/
 theorem mapWithIndex_spec (f : Nat → Option α → Option β) (xs : List (Option α))
@@ -265,30 +365,56 @@ theorem mapWithIndex_spec (f : Nat → Option α → Option β) (xs : List (Opti
 example : mapIdxLoop (fun i (e : Option Nat) => e.map (· + i)) 0 [some 10, none, some 10] =
     [some 10, none, some 12] := by decide
 
-/-- C10.5h `builtin_flatmap` (both the array and the string branch): every element evaluated, every
-    call succeeds with null or a sequence, result = concatenation of the non-null pieces -/
-theorem flatMap_spec (f : α → Option (Option (List β))) (xs : List (Option α)) :
+/-- C10.5h `builtin_flatmap` (both the array and the string branch), at full strength: the callback
+    receives the element thunk; every call succeeds with null or a sequence, result = concatenation
+    of the non-null pieces (for arrays the pieces are the thunks of the returned arrays) -/
+theorem flatMap_spec (f : Option α → Option (Option (List β))) (xs : List (Option α)) :
     flatMapLoop f [] xs = flatMapSpec f xs := by
   rw [flatMapLoop_eq]; cases flatMapSpec f xs <;> simp
 
-example : flatMapLoop (fun (n : Nat) => if n = 0 then some none else some (some [n, n])) []
-    [some 1, some 0, some 2] = some [1, 1, 2, 2] := by decide
+/-- C10.5h′ the round-3 statement is the special case of a callback that uses its argument: every
+    element is evaluated first -/
+theorem flatMap_spec_strict (f : α → Option (Option (List β))) (xs : List (Option α)) :
+    flatMapLoop (fun e => e.bind f) [] xs = flatMapStrict f xs := by
+  rw [flatMap_spec, flatMapSpec_strict]
+
+example : flatMapLoop (fun (e : Option Nat) => e.bind fun n => if n = 0 then some none else some (some [n, n])) []
+      [some 1, some 0, some 2] = some [1, 1, 2, 2] ∧
+    flatMapLoop (fun (_ : Option Nat) => some (some [7])) [] [none, some 1] = some [7, 7] ∧
+    flatMapLoop (fun (e : Option Nat) => some (some [e, e])) [] [none] = some [none, none] ∧
+    flatMapLoop (fun (e : Option Nat) => e.bind fun n => some (some [n])) [] [some 1, none] = none := by decide
 
 /-- C10.5i `builtin_min_array` / `builtin_max_array` (`is_empty` guard, `onEmpty` thunk forced only
-    for the empty array, `array_top1` scan): for a total key into a total order the scan equals
-    "keep the best so far, replace it only by a strictly better one". -/
-theorem minmax_spec {key : α → Option κ} {cmp : κ → κ → Option Ordering} {k : α → κ}
-    {ord : κ → κ → Ordering} (hk : ∀ x, key x = some (k x)) (hc : ∀ p q, cmp p q = some (ord p q))
-    (want : Ordering) (onEmpty onEmpty' : Option (Option α)) (m : α) (r : List α) :
+    for the empty array, `array_top1` scan over the thunks), at full strength: for a key function
+    that is total on thunks into a total order the scan equals the documented fold "keep the best so
+    far, replace it only by a strictly better one" over the THUNKS — the result is the winning thunk,
+    evaluated; a losing element is only ever looked at by the key function. -/
+theorem minmax_spec {key : Option α → Option κ} {cmp : κ → κ → Option Ordering} {k : Option α → κ}
+    {ord : κ → κ → Ordering} (hk : ∀ e, key e = some (k e)) (hc : ∀ p q, cmp p q = some (ord p q))
+    (want : Ordering) (onEmpty onEmpty' : Option (Option α)) (m : Option α) (r : List (Option α)) :
     top1M key cmp want [] onEmpty = evalOnEmpty onEmpty ∧
-    top1M key cmp want ((m :: r).map some) onEmpty = some (top1Spec k ord want m r) ∧
+    top1M key cmp want (m :: r) onEmpty = top1Spec k ord want m r ∧
     (∀ xs : List (Option α), xs ≠ [] → top1M key cmp want xs onEmpty = top1M key cmp want xs onEmpty') := by
   refine ⟨rfl, ?_, ?_⟩
-  · rw [top1M_eq hk hc]; simp [evalAll]
+  · rw [top1M_eq hk hc]
   · intro xs hxs
     cases xs with
     | nil => exact absurd rfl hxs
-    | cons e r => cases e <;> rfl
+    | cons e r => rfl
+
+/-- C10.5i′ the round-3 statement is the special case of a key function that uses its argument
+    (`fun e => e.bind key`): every element is evaluated and the scan runs on the values -/
+theorem minmax_spec_strict {key : α → Option κ} {cmp : κ → κ → Option Ordering} {k : α → κ}
+    {ord : κ → κ → Ordering} (hk : ∀ x, key x = some (k x)) (hc : ∀ p q, cmp p q = some (ord p q))
+    (want : Ordering) (onEmpty : Option (Option α)) (m : α) (r : List α) (xs : List (Option α)) :
+    top1M (fun e => e.bind key) cmp want ((m :: r).map some) onEmpty = some (top1Spec k ord want m r) ∧
+    (none ∈ xs → top1M (fun e => e.bind key) cmp want xs onEmpty = none) := by
+  refine ⟨?_, fun hmem => ?_⟩
+  · rw [top1M_strict hk hc]; simp [evalAll]
+  · rw [top1M_strict hk hc]
+    cases xs with
+    | nil => simp at hmem
+    | cons e r => simp [evalAll_of_mem_none hmem]
 
 /-- C10.5j ... and that scan returns the FIRST minimal element (`minArray`): everything before it
     has a strictly greater key, nothing after it a strictly smaller one; `maxArray` symmetrically. -/
@@ -308,12 +434,15 @@ theorem minmax_first_extremum {ord : κ → κ → Ordering} [TransCmp ord] (k :
     · exact OrientedCmp.gt_of_lt (h2 y hy)
     · intro hgt; exact h3 y hy (OrientedCmp.lt_of_gt hgt)
 
-example : top1M (fun (p : Int × String) => some p.1) (fun a b => some (compare a b)) .lt
+example : top1M (fun (e : Option (Int × String)) => e.bind fun p => some p.1) (fun a b => some (compare a b)) .lt
       [some (2, "a"), some (1, "b"), some (1, "c")] none = some (1, "b") ∧
-    top1M (fun (p : Int × String) => some p.1) (fun a b => some (compare a b)) .gt
+    top1M (fun (e : Option (Int × String)) => e.bind fun p => some p.1) (fun a b => some (compare a b)) .gt
       [some (2, "a"), some (1, "b"), some (2, "c")] (some none) = some (2, "a") ∧
-    top1M (fun (p : Int × String) => some p.1) (fun a b => some (compare a b)) .gt
-      [] (some (some (0, "dflt"))) = some (0, "dflt") := by decide
+    top1M (fun (e : Option (Int × String)) => e.bind fun p => some p.1) (fun a b => some (compare a b)) .gt
+      [] (some (some (0, "dflt"))) = some (0, "dflt") ∧
+    -- the repaired defect: `std.minArray([1, error "x"], keyF=function(x) 0)` is `1`
+    top1M (fun (_ : Option (Int × String)) => some (0 : Int)) (fun a b => some (compare a b)) .lt
+      [some (1, "a"), none] none = some (1, "a") := by decide
 
 /-- C10.5k `builtin_sum` (`fold(0.0, +)` — not `Iterator::sum`, whose empty value is `-0.0`) -/
 theorem sum_spec (ns : List Int) : sumLoop 0 ns = ns.sum := by
